@@ -68,7 +68,8 @@ bench("chrono",
             [sched(0, prog=1), sched(2, prog=3)]],  # 4: invalid (now) request, then a later forward
       mc=mc(MaxCmds=4, MaxTime=4, MaxQueue=3,
             sched=[S("m1", 1), S("m1", 2, prog=2), S("m2", 1, prog=3), S("m1", 2, abs=True), S("m2", 0),
-                   S("m1", 1, prog=4)],
+                   S("m1", 1, prog=4), S("m2", 1, kind="keyed")],
+            cancel=["k1"],
             until=[U(0), U(1), U(2), U(1, abs=True)], proc=[P("m1", 2), P("m2", 3)],
             thorough=dict(MaxCmds=5)))
 
@@ -104,7 +105,9 @@ bench("periodic",
       mc=mc(MaxCmds=5, MaxTime=6, MaxQueue=2,
             sched=[S("m1", 1, kind="periodic", per=1), S("m1", 2, kind="periodic", per=2),
                    S("m1", 1, kind="periodic", per=3), S("m2", 3, kind="periodic", per=2),
-                   S("m1", 1, kind="periodic", per=0)],
+                   S("m1", 1, kind="periodic", per=0), S("m1", 1, kind="kperiodic", per=2),
+                   S("m2", 2, kind="kperiodic", per=1, slot="k2")],
+            cancel=["k1", "k2"],
             until=[U(0), U(1), U(2), U(3)], proc=[P("m2", 2)],
             thorough=dict(MaxCmds=6, MaxTime=8)))
 
@@ -155,6 +158,31 @@ bench("validate",
                    for (a, d) in ((False, 0), (False, 1), (True, 0), (True, 1), (True, 2))],
             until=[U(1)], proc=[P("m1", 2)],
             thorough=dict(MaxCmds=4)))
+
+
+# C19: a flood through a small mailbox (senders suspended), a third model failing meanwhile.
+bench("flood3", models=["m1", "m2", "m3"],
+      conn={"m1": ["m2"], "m2": ["m1"], "m3": ["DEAD"]},
+      srcconn=[["m1", "m3"], ["m1"]],
+      prog=[[NOP],
+            [send(1), send(1), send(1), send(1), send(1), send(1)],   # 2: at m1 floods m2; at m3 the send has no recipient
+            [op("panic")]],                                             # 3
+      mc=mc(MaxCmds=3, MaxTime=2, MaxQueue=2,
+            sched=[S(1, 1, prog=2, cls="act"), S("m2", 1, prog=3)],
+            until=[U(1)], proc=[P(1, 2, kind="action"), P(2, 2, kind="action"), P("m3", 3)]))
+
+
+# C19: a chain of floods m4 -> m1 -> m2 through capacity-1 mailboxes, the end of the chain failing (m3 sends to a
+# dropped mailbox): at the abort several senders are suspended on full mailboxes and a model task is queued.
+bench("flood4", models=["m1", "m2", "m3", "m4"],
+      conn={"m1": ["m2"], "m2": ["m3"], "m3": ["DEAD"], "m4": ["m1"]},
+      srcconn=[["m4"]],
+      prog=[[NOP],
+            [send(1, prog=3), send(1, prog=3), send(1, prog=3), send(1, prog=3), send(1, prog=3), send(1, prog=3)],  # 2 (m4)
+            [send(1, prog=4), send(1, prog=1), send(1, prog=1), send(1, prog=1)],   # 3 (m1): to m2
+            [send(1, prog=5)],      # 4 (m2): to m3
+            [send(1, prog=1)]],     # 5 (m3): no recipient
+      mc=mc(MaxCmds=1, MaxTime=1, MaxQueue=1, sched=[], until=[], step=False, proc=[P(1, 2, kind="action")]))
 
 
 def bench_constants(b):
